@@ -96,6 +96,16 @@ def superchunk_values(rng, nl, r, count=2):
     cands = [p, p - 1, p + 1, (bb + 1) * q, (bb - 1) * q, p + bb, rng.randrange(1, bb) * q + rng.randrange(r),
              rng.randrange(1, bb) * q + rng.randrange(1, bb) * bb ** rng.randrange(m), 2 * p, bb * (p - 1)]
     rng.shuffle(cands)
+    # a super-chunk that is all zeros above a residue in every magnitude class of the small base (below r, just below
+    # and just above r^power = `base`, up to 2^64, two and three chunks): the last big digit of a field may not be
+    # assumed to fit `power` output digits (C06-x1).  These come first.
+    base, power = radix_power(r)
+    res = [rng.randrange(base, B) if base < B else base, base, base + 1, MAX, base - 1, rng.randrange(r), rng.randrange(B, B * B),
+           base * base - 1, base * base + rng.randrange(base)]
+    rng.shuffle(res)
+    fieldz = [rng.choice([p, rng.randrange(1, r) * p, rng.randrange(1, bb) * q, p * rng.randrange(1, bb)]) + s_ for s_ in res[:3]]
+    cands = fieldz + cands
+    count = count + 2
     out = []
     for v in cands:
         n2 = nlimbs(v)
@@ -225,8 +235,37 @@ def parse_reqs(rng, r, b, which=None):
     return "C06 %s %d %s" % (op, r, wbytes(b))
 
 
-def gen(rng, tier):
+def capacity_boundary_reqs(rng, tier):
+    """parse inputs on the boundaries of the output-size estimate: for k = 1 … K big digits, the longest digit string
+    that still fits k digits (L = floor(64k / log2 r)) and the next one, filled with the largest digit (value at the
+    top of its range) and as 1000…0 — an estimate that is one digit short only shows there, and the estimate is
+    feature-conditional code (float log2 with std, integer approximation without; C16-x1: a rounded-down fixed-point
+    log2 used as a multiplier).  Text for radices <= 36, digit vectors above."""
+    import math
     reqs = []
+    thorough = tier == "thorough"
+    radices = [10, 3, 7, 23, 36, 161, 201] + rng.sample([r for r in range(2, 257) if not is_pow2(r)], 6 if not thorough else 40)
+    K = 300 if thorough else 130
+    for r in radices:
+        lg = math.log2(r)
+        ks = list(range(1, 41)) + list(range(41, K, 1 if thorough else 5)) + [94, 188, 64, 65, 128, 129]
+        if not thorough:
+            ks = [k for k in ks if k <= 40 or rng.randrange(3) == 0 or k in (94, 64, 65, 128)]
+        for k in sorted(set(ks)):
+            L0 = int(64 * k / lg)
+            for L in (L0, L0 + 1):
+                if L < 1:
+                    continue
+                for ds in ([r - 1] * L, [1] + [0] * (L - 1)):
+                    if r <= 36:
+                        b = "".join(ALPHA[d] for d in ds).encode()
+                        reqs.append(parse_reqs(rng, r, b, ["u.from_str", "u.parse_bytes", "i.from_str"][(k + L) % 3]))
+                    else:
+                        reqs.append("C06 u.from_radix_be %d %s" % (r, wbytes(ds)))
+    return reqs
+
+def gen(rng, tier):
+    reqs = capacity_boundary_reqs(rng, tier)
     thorough = tier == "thorough"
     rounds = 3 if thorough else 1
     for rnd in range(rounds):
